@@ -8,6 +8,7 @@
 
 #![allow(dead_code)]
 mod big;
+mod c14;
 mod checks;
 mod exact;
 mod exec;
